@@ -1,0 +1,9 @@
+//go:build !verif
+
+// Package verifhook provides the call sites the /verif runtime monitors use to widen thread
+// interleavings and to record that internal steps were reached. Without the "verif" build tag
+// At is an empty function the compiler inlines away.
+package verifhook
+
+// At marks an internal step; it does nothing in a normal build.
+func At(site string) {}
